@@ -18,10 +18,51 @@ type Intrinsic func(x *Exec, st *State, fr *Frame, c *callCtx) bool
 type callCtx struct {
 	common *ssa.CallCommon
 	fn     *ssa.Function // static callee when known
+	sig    *calleeSig    // set when the callee is an interface method under contract (fn == nil)
+	viaFV  bool          // reached through a funcvalue directive: requires tagged [captured] are assumed
 	name   string
 	args   []Value // includes receiver first for methods
 	ret    ssa.Value
 	defer_ bool
+}
+
+// calleeSig describes a callee by names and types only: what a contract needs to bind its
+// parameters and results. It is built from an ssa.Function or from an interface method.
+type calleeSig struct {
+	name    string
+	pkg     *types.Package
+	params  []*types.Var // receiver first for methods
+	results *types.Tuple
+}
+
+func sigOfFunc(fn *ssa.Function) *calleeSig {
+	cs := &calleeSig{name: fn.Name(), results: fn.Signature.Results()}
+	if fn.Pkg != nil {
+		cs.pkg = fn.Pkg.Pkg
+	} else if fn.Parent() != nil && fn.Parent().Pkg != nil {
+		cs.pkg = fn.Parent().Pkg.Pkg
+	}
+	for _, p := range fn.Params {
+		cs.params = append(cs.params, types.NewVar(p.Pos(), cs.pkg, p.Name(), p.Type()))
+	}
+	return cs
+}
+
+func sigOfIfaceMethod(recv types.Type, m *types.Func) *calleeSig {
+	sig := m.Type().(*types.Signature)
+	cs := &calleeSig{name: m.Name(), pkg: m.Pkg(), results: sig.Results()}
+	cs.params = append(cs.params, types.NewVar(m.Pos(), m.Pkg(), "recv", recv))
+	for i := 0; i < sig.Params().Len(); i++ {
+		cs.params = append(cs.params, sig.Params().At(i))
+	}
+	return cs
+}
+
+func (c *callCtx) calleeSig() *calleeSig {
+	if c.sig != nil {
+		return c.sig
+	}
+	return sigOfFunc(c.fn)
 }
 
 var genericRe = regexp.MustCompile(`\[[^\]]*\]`)
@@ -125,6 +166,15 @@ func (x *Exec) callValue(st *State, fr *Frame, common *ssa.CallCommon, fnVal Val
 			in(x, st, fr, c)
 			return
 		}
+		if ct := x.prog.contracts.byKey[x.prog.ifaceKey(recvT, mname)]; ct != nil {
+			x.oblige(st, "nil-deref", "method call on nil interface", Not(iv.Nil), common.Pos(), nil)
+			if !iv.Nil.IsFalse() {
+				st.assume(Not(iv.Nil))
+			}
+			c.sig = sigOfIfaceMethod(recvT, common.Method)
+			x.applyContract(st, fr, c, ct)
+			return
+		}
 		x.unsupported(st, "interface method "+c.name)
 		return
 	}
@@ -154,6 +204,71 @@ func (x *Exec) callValue(st *State, fr *Frame, common *ssa.CallCommon, fnVal Val
 			x.usedIntrinsic(c.name)
 			in(x, st, fr, c)
 			return
+		}
+		// "funcvalue <regexp> is <function>": unknown function values whose access path matches are
+		// instances of the named function (closure); the call uses that function's contract
+		if x.contract != nil {
+			for _, d := range x.contract.Directives["funcvalue"] {
+				if rp := strings.SplitN(d, " records ", 2); len(rp) == 2 {
+					// "funcvalue <regexp> records <name>": a callback supplied by the caller: no effect on
+					// verified state, arbitrary results, every call is recorded
+					re, err := regexp.Compile(strings.TrimSpace(rp[0]))
+					if err != nil || !re.MatchString(fv.Name) {
+						continue
+					}
+					sig, _ := fv.Typ.Underlying().(*types.Signature)
+					var as []TV
+					for i, a := range args {
+						if sig != nil && i < sig.Params().Len() {
+							as = append(as, TV{a, sig.Params().At(i).Type()})
+						}
+					}
+					var results []Value
+					rv := x.symbolicResult(st, c)
+					if t, ok := rv.(VTuple); ok {
+						results = t.E
+					} else if rv != nil {
+						results = []Value{rv}
+					}
+					if sig != nil {
+						for i := 0; i < sig.Results().Len(); i++ {
+							as = append(as, TV{nil, sig.Results().At(i).Type()})
+						}
+					}
+					st.rec = append(append([]recordedCall(nil), st.rec...), recordedCall{Name: strings.TrimSpace(rp[1]), Args: as, Results: results})
+					x.finish(st, fr, c, rv)
+					return
+				}
+				parts := strings.SplitN(d, " is ", 2)
+				if len(parts) != 2 {
+					continue
+				}
+				re, err := regexp.Compile(strings.TrimSpace(parts[0]))
+				if err != nil || !re.MatchString(fv.Name) {
+					continue
+				}
+				key := strings.TrimSpace(parts[1])
+				if !strings.Contains(key, ":") {
+					key = x.prog.funcKey(x.fn)[:strings.Index(x.prog.funcKey(x.fn), ":")+1] + key
+				}
+				fn := x.prog.lookupFunc(key)
+				ct := x.prog.contracts.byKey[key]
+				if fn == nil || ct == nil {
+					x.unsupported(st, "funcvalue directive names "+key+" which has no contract")
+					return
+				}
+				c.fn = fn
+				c.name = calleeName(fn)
+				c.args = append([]Value(nil), args...)
+				x.callCounter++
+				for _, v := range fn.FreeVars {
+					c.args = append(c.args, x.symbolic(st, v.Type(), fmt.Sprintf("funcvalue!%d.%s", x.callCounter, v.Name())))
+				}
+				c.viaFV = true
+				x.notes["ASSUMED: function values matching "+strings.TrimSpace(parts[0])+" are instances of "+key] = true
+				x.applyContract(st, fr, c, ct)
+				return
+			}
 		}
 		if strings.HasPrefix(fv.Name, "nil") {
 			x.oblige(st, "nil-deref", "call of nil function value", TFalse, common.Pos(), nil)
@@ -277,8 +392,8 @@ func (x *Exec) pushFrame(st *State, fn *ssa.Function, args []Value, ret ssa.Valu
 
 // applyContract replaces a call by the callee's contract.
 func (x *Exec) applyContract(st *State, fr *Frame, c *callCtx, ct *Contract) {
-	fn := c.fn
-	env := x.specEnvFor(st, fn, c.args, nil, nil)
+	cs := c.calleeSig()
+	env := x.specEnvForSig(st, cs, c.fn, c.args, nil, nil)
 	x.extendEnv(env, st, fr)
 	assumeReq := x.contract != nil && x.contract.Directives["assume-callee-requires"] != nil
 	for _, cl := range ct.Requires {
@@ -287,7 +402,13 @@ func (x *Exec) applyContract(st *State, fr *Frame, c *callCtx, ct *Contract) {
 			x.unsupported(st, err.Error())
 			return
 		}
-		if !assumeReq {
+		captured := false
+		for _, p := range cl.Props {
+			if p == "captured" {
+				captured = true
+			}
+		}
+		if !assumeReq && !(c.viaFV && captured) {
 			x.oblige(st, "requires", fmt.Sprintf("precondition of %s: %s", c.name, cl.Text), t, c.common.Pos(), ct.clauseProps(cl))
 		}
 		st.assume(t)
@@ -298,11 +419,11 @@ func (x *Exec) applyContract(st *State, fr *Frame, c *callCtx, ct *Contract) {
 		if len(parts) != 2 {
 			continue
 		}
-		for i, p := range fn.Params {
+		for i, p := range cs.params {
 			if p.Name() != parts[0] || i >= len(c.args) {
 				continue
 			}
-			want, _ := x.prog.constString(fn.Pkg.Pkg.Path(), parts[1])
+			want, _ := x.prog.constString(cs.pkg.Path(), parts[1])
 			so := x.stmtOf(st, c.args[i])
 			ok := so != nil && so.Text == want
 			x.oblige(st, "stmt-binding", fmt.Sprintf("%s is called with the statement prepared from %s", c.name, parts[1]), BoolLit(ok), c.common.Pos(), ct.Props)
@@ -313,15 +434,15 @@ func (x *Exec) applyContract(st *State, fr *Frame, c *callCtx, ct *Contract) {
 		heap0[k] = v
 	}
 	x.callCounter++
-	sig := fn.Signature.Results()
+	sig := cs.results
 	results := make([]Value, sig.Len())
 	for i := range results {
-		results[i] = x.symbolic(st, sig.At(i).Type(), fmt.Sprintf("%s!%d.result%d", fn.Name(), x.callCounter, i))
+		results[i] = x.symbolic(st, sig.At(i).Type(), fmt.Sprintf("%s!%d.result%d", cs.name, x.callCounter, i))
 	}
 	if st.ghost != nil {
 		st.ghost.atOpaqueCall(x, st, fr, c, ct)
 	}
-	env = x.specEnvFor(st, fn, c.args, results, heap0)
+	env = x.specEnvForSig(st, cs, c.fn, c.args, results, heap0)
 	x.extendEnv(env, st, fr)
 	env.assume = true
 	for _, cl := range ct.Ensures {
@@ -335,7 +456,7 @@ func (x *Exec) applyContract(st *State, fr *Frame, c *callCtx, ct *Contract) {
 	x.usedContracts[ct.Key] = true
 	if rd := ct.Directives["records"]; rd != nil {
 		var as []TV
-		for i, p := range fn.Params {
+		for i, p := range cs.params {
 			if i < len(c.args) {
 				as = append(as, TV{c.args[i], p.Type()})
 			}
